@@ -70,7 +70,9 @@ def rpm_add(rng, variants=VARIANTS, arches=None, invalid=0.25, srpms=None):
         elif k == "arch-src":
             op["arch"] = pick(rng, ["src", "nosrc"])
         elif k == "category":
-            op["category"] = pick(rng, ["bin", "Binary", "", None])
+            op["category"] = pick(rng, ["bin", "Binary", "", None, "package", "package"])    # 'package': the 0.3 name of 'binary'
+            if op["category"] == "package" and "srpm_nevra" not in op:
+                op["category"] = "bin"
         elif k == "abs-path":
             op["path"] = "/" + op["path"]
         elif k == "empty-path":
